@@ -78,6 +78,12 @@ CHECKS = {
              "instant, additivity over sources and waveform reproduction (Parseval tail bound) are monitored; strata with exact and rounding-only "
              "frequency coincidences.",
         design='5/C09', technique='runtime oracle vs exact per-frequency references + trace relations on time functions'),
+    'C18': dict(
+        text="Runtime oracle on str(ScientificFloat)/str(ScientificComplex)/Display.print_*: an independent exact-decimal parser recovers sign, "
+             "mantissa, exponent/prefix and unit of every rendered string and compares with the exact binary value (half a unit of the p-th digit), "
+             "exponent multiple of three, mantissa range, complex parts/signs/angles, sinusoid labels; bounded-exhaustive over all p-digit mantissas "
+             "(p<=3) x all decades x binary64 neighbours x every prefix table, random elsewhere. Two range-rule defects are recorded as known findings.",
+        design='5/C18', technique='runtime oracle: independent exact-decimal parser over bounded-exhaustive and random renderings'),
 }
 
 NOT_YET = "check not built yet in this round (work in progress; see DESIGN.md section 5)"
